@@ -602,6 +602,32 @@ def _builtin(ex, st, c, callee, args, fn):
             return z3.BoolVal(a0.tag == 'nullptr')
         if isinstance(a0, (Ref, _Ptr)):
             return z3.BoolVal(False)
+    m = re.search(r'(^|::)cmp::(min|max)$', c)
+    if m and len(args) == 2:
+        a, b = _val(ex, st, args[0]), _val(ex, st, args[1])
+        k = m.group(2)
+        if isinstance(a, z3.ExprRef) and isinstance(b, z3.ExprRef) and z3.is_int(a) and z3.is_int(b):
+            return z3.If(a <= b, a, b) if k == 'min' else z3.If(a >= b, a, b)
+        if isinstance(a, Struct) and isinstance(b, Struct) and len(a.f) == 1 and len(b.f) == 1 and isinstance(a.f[0], z3.ExprRef) and isinstance(b.f[0], z3.ExprRef):
+            x, y = a.f[0], b.f[0]       # Duration / Instant / SystemTime as exact integer ns
+            return Struct([z3.If(x <= y, x, y) if k == 'min' else z3.If(x >= y, x, y)])
+    m = re.search(r'(^|::)cmp::(min|max)::<(.+)>$', callee.strip())
+    if m and len(args) == 2:
+        # a user type: through the type's own Ord::cmp body (std: max(a, b) = if a > b { a } else { b }; min(a, b) = if b < a { b } else { a })
+        cands = ex.prog.resolve('<%s as Ord>::cmp' % m.group(3).split('::')[-1], 2)
+        if len(cands) == 1:
+            a, b = args
+            ra, rb = a, b
+            if not isinstance(a, (Ref, IteRef)):
+                st.mem[('clo', id(a))] = a; ra = Ref('clo', id(a))
+            if not isinstance(b, (Ref, IteRef)):
+                st.mem[('clo', id(b))] = b; rb = Ref('clo', id(b))
+            outs = ex.inline(cands[0], [ra, rb], st)
+            res = []
+            for s2, v in outs:
+                o = v.disc()
+                res.append((s2, ite(o == 1, _val(ex, s2, a), _val(ex, s2, b))))
+            return res
     # pure Duration arithmetic / comparisons (exact integer nanoseconds)
     m = (re.search(r'(^|::)Duration::(saturating_sub|saturating_add|checked_add|checked_sub|subsec_micros|subsec_millis|is_zero|abs_diff)$', c)
          or re.search(r'^<(?:std::time::)?Duration as (?:Ord|PartialOrd|PartialEq)>::(max|min|clamp|gt|ge|lt|le|eq|ne)$', c)
@@ -647,6 +673,21 @@ def _builtin(ex, st, c, callee, args, fn):
             if k == 'div':
                 ex.obligations.append(Obligation(z3.And(st.pcond(), y == 0), 'division of a duration by zero', fn.name))
                 return Struct([x / y])
+    # ---------------------------------------------------------------- OnceLock / OnceCell / LazyLock: the value the initialiser computes
+    # (the first caller runs it; later callers see that same value: an arbitrary-but-fixed environment answers identically)
+    if re.search(r'(^|::)Once(Lock|Cell)(::<.*>)?::get_or_init(::<.*>)?$', callee.strip()) and len(args) == 2:
+        outs = _closure_outcomes(ex, st.fork(), callee, args[1], [])
+        if outs:
+            res = []
+            for s2, val in outs:
+                key = ('once', len(s2.mem))
+                s2.mem[key] = val
+                res.append((s2, Ref(*key)))
+            if len(res) == 1:
+                s2 = res[0][0]
+                st.mem, st.pc, st.trace, st.visits = s2.mem, s2.pc, s2.trace, s2.visits
+                return res[0][1]
+            return res
     # ---------------------------------------------------------------- memory
     if re.search(r'MaybeUninit::uninit$', c):
         return Struct([None])
@@ -774,6 +815,25 @@ def call_closure(ex, st, callee, closure, cargs):
             outs = ex.inline(f, [env] + list(cargs), st)
             if len(outs) == 1:
                 return outs[0]
+    return None
+
+
+def _closure_outcomes(ex, st, callee, closure, cargs):
+    """like call_closure, but every return path of the closure: a list of (state, value), or None"""
+    locs = re.findall(r'\{closure@([^}]+)\}', callee)
+    for loc in reversed(locs):
+        cands = [f for lst in ex.prog.fns.values() for f in lst if '{closure#' in f.name and f.params and loc in f.ltypes.get(f.params[0], '')]
+        if len(cands) > 1 and all(c.blocks == cands[0].blocks for c in cands[1:]):
+            cands = cands[:1]
+        if len(cands) == 1:
+            f = cands[0]
+            envp = f.ltypes.get(f.params[0], '')
+            env = closure
+            if envp.startswith('&') and not isinstance(closure, (Ref, IteRef)):
+                st.mem[('clo', id(closure))] = closure
+                env = Ref('clo', id(closure))
+            outs = ex.inline(f, [env] + list(cargs), st)
+            return [o for o in outs] or None
     return None
 
 
